@@ -16,8 +16,8 @@ echo "demo: unmodified rc=$rc_clean, with patch rc=$rc_mut"
 tail -n 3 /tmp/seed_eval_mut.log | cut -c1-200
 git -C "$WT" checkout -q -- . 
 mkdir -p "$HERE/seeded/$NAME"
-cp "$SRC/patch.diff" "$SRC/demo.py" "$HERE/seeded/$NAME/"
-[ -f "$SRC/meta.json" ] && cp "$SRC/meta.json" "$HERE/seeded/$NAME/meta.agent.json"
+[ "$(realpath "$SRC")" = "$(realpath "$HERE/seeded/$NAME")" ] || cp "$SRC/patch.diff" "$SRC/demo.py" "$HERE/seeded/$NAME/"
+[ -f "$SRC/meta.json" ] && [ "$(realpath "$SRC")" != "$(realpath "$HERE/seeded/$NAME")" ] && cp "$SRC/meta.json" "$HERE/seeded/$NAME/meta.agent.json"
 for tier in quick thorough; do
   out="$("$HERE/tools/mutant.sh" "$HERE/seeded/$NAME/patch.diff" "$ID" "$tier" 0 2>&1)"; rc=$?
   nv=$(echo "$out" | grep -c '^VIOLATION')
